@@ -146,6 +146,7 @@ func main() {
 	maxSteps := fs.Int("max-steps", 20000000, "instruction budget per path")
 	maxChoices := fs.Int("max-choices", 4000, "fork budget per path")
 	maxPaths := fs.Int("max-paths", 2000000, "path budget per entry")
+	maxSeconds := fs.Int("max-seconds", 900, "wall-clock budget per entry (exceeded = truncated = inconclusive)")
 	maxLen := fs.Int("max-len", 8, "default bound for symbolic allocation lengths")
 	trace := fs.Bool("trace", false, "trace calls")
 	fs.Parse(os.Args[2:])
@@ -210,7 +211,7 @@ func main() {
 	eng := &engine{
 		prog: prog, hpkg: hpkg, repoPrefix: modPrefix,
 		models: map[string]*ssa.Function{}, noInit: map[string]string{},
-		maxSteps: *maxSteps, maxChoices: *maxChoices, maxAlloc: 16 << 20, maxLen: *maxLen, maxPaths: *maxPaths,
+		maxSteps: *maxSteps, maxChoices: *maxChoices, maxAlloc: 16 << 20, maxLen: *maxLen, maxPaths: *maxPaths, maxSeconds: *maxSeconds,
 		workers: *workers, solverBin: *solver, solverTimeout: *timeout, fset: prog.Fset,
 		covered: map[string]bool{}, allFuncs: map[*ssa.Function]bool{}, allNotes: map[string]bool{}, lazyInits: map[string]bool{},
 		thorough: *thorough,
